@@ -42,10 +42,11 @@ type config struct {
 	rev2only    bool
 	state       string // notauth, auth, selected
 	copyData    *imap.CopyData
+	utf8        bool // ENABLE UTF8=ACCEPT (IMAP4rev2 when rev2only) before the history: responses may quote 8-bit strings
 }
 
 func (c config) String() string {
-	return fmt.Sprintf("literal+=%v rev2only=%v state=%s", c.literalPlus, c.rev2only, c.state)
+	return fmt.Sprintf("literal+=%v rev2only=%v state=%s utf8=%v", c.literalPlus, c.rev2only, c.state, c.utf8)
 }
 
 // arg is one string argument and how it is rendered.
@@ -132,6 +133,25 @@ func start(t fataler, cfg config) *run {
 		}
 		return w.WriteExpunge(1)
 	}
+	// the responses echo the (arbitrary) strings the commands carried, so that
+	// the well-formedness of the server's output is judged on hostile data too
+	r.core.OnList = func(w *imapserver.ListWriter, ref string, patterns []string, _ *imap.ListOptions) error {
+		for _, p := range patterns {
+			if err := w.WriteList(&imap.ListData{Mailbox: ref + p, Delim: '/'}); err != nil {
+				return err
+			}
+		}
+		return nil
+	}
+	r.core.OnFetch = func(w *imapserver.FetchWriter, _ imap.NumSet, o *imap.FetchOptions) error {
+		rw := w.CreateMessage(1)
+		for _, bs := range o.BodySection { // echoes the header field names the command carried
+			wc := rw.WriteBodySection(bs, 2)
+			wc.Write([]byte("ok"))
+			wc.Close()
+		}
+		return rw.Close()
+	}
 	r.env = srv.Start(imapserver.Options{
 		NewSession: func(*imapserver.Conn) (imapserver.Session, *imapserver.GreetingData, error) {
 			return stub.Session(r.core, stub.FMove|stub.FNamespace|stub.FUnauth), nil, nil
@@ -147,6 +167,15 @@ func start(t fataler, cfg config) *run {
 	if cfg.state != "notauth" {
 		if _, st, err := r.raw.Cmd("pre1", "LOGIN setupuser setuppass"); err != nil || st.Status != "OK" {
 			r.fail(t, "setup login: %v %v", st, err)
+		}
+	}
+	if cfg.utf8 && cfg.state != "notauth" {
+		capName := "UTF8=ACCEPT"
+		if cfg.rev2only {
+			capName = "IMAP4rev2"
+		}
+		if _, st, err := r.raw.Cmd("pre0", "ENABLE "+capName); err != nil || st.Status != "OK" {
+			r.fail(t, "setup enable: %v %v", st, err)
 		}
 	}
 	if cfg.state == "selected" {
@@ -220,6 +249,11 @@ func (r *run) readUntil(t fataler, tag string, contAllowed bool, what string) (w
 		}
 		if err := l.WellFormed(); err != nil {
 			r.fail(t, "malformed response line %q: %v", clip(string(l.Raw)), err)
+		}
+		for _, tk := range l.Toks {
+			if tk.Kind == tok.Quoted && tk.RawCtl {
+				r.fail(t, "response line %q holds a quoted string with a raw CR, LF or NUL: the output is not a sequence of whole lines", clip(string(l.Raw)))
+			}
 		}
 		r.log("  <- %s", clip(strings.TrimRight(string(l.Raw), "\r\n")))
 		if l.IsCont {
@@ -400,7 +434,7 @@ func genPayload(t *rapid.T, label string, size int) string {
 		case 2:
 			sb.WriteString(rapid.SampledFrom([]string{"\"", "{5}", "{3+}\r\nabc", "(", ")", "\\", " ", "\r\n", "]"}).Draw(t, label+".junk"))
 		default:
-			sb.WriteString(rapid.SampledFrom([]string{"hello", "user", "Subject: x\r\n", "a b c", "payload"}).Draw(t, label+".txt"))
+			sb.WriteString(rapid.SampledFrom([]string{"hello", "user", "Subject: x\r\n", "a b c", "payload", "h\u00e9llo", "\u53f0"}).Draw(t, label+".txt"))
 		}
 	}
 	s := sb.String()
@@ -759,6 +793,7 @@ func genConfig(t *rapid.T) config {
 		literalPlus: rapid.Bool().Draw(t, "literalPlus"),
 		rev2only:    rapid.IntRange(0, 3).Draw(t, "rev2only") == 2,
 		state:       rapid.SampledFrom([]string{"notauth", "auth", "selected", "selected"}).Draw(t, "state"),
+		utf8:        rapid.Bool().Draw(t, "utf8"),
 	}
 	// what the backend reports for COPY/MOVE: nothing, copied messages, or no
 	// message matched (empty sets, as the in-memory backend does)
